@@ -315,7 +315,7 @@ macro_rules! c01_write_file {
             let nm = ascii1();
             let nb = [nm.as_bytes()[0]];
             let mut sink = Sink::<128>::new();
-            let mut w = ZipWriter::new(sink.handle());
+            let mut w = core::mem::ManuallyDrop::new(ZipWriter::new(sink.handle())); // never dropped: Drop would re-run finalize on every early-return path
             w.set_raw_comment(comment.to_vec());
             match w.start_file(nm, opts(perm, DateTime::from_msdos(date, time), large)) {
                 Ok(()) => {}
@@ -347,8 +347,7 @@ macro_rules! c01_write_file {
                     return;
                 }
             };
-            core::mem::forget(w);
-            assert!(!sink.overflow);
+                    assert!(!sink.overflow);
             judge_single(&sink.buf, sink.end, &nb, &content, CLEN, large, date, time, 0o100000 | (perm & 0o777));
             kani::cover!(sink.end > 0);
         }
@@ -661,7 +660,7 @@ fn sym_opts() -> (FileOptions, u16, u16, u32) {
 // @h prop=C12,C01 tier=quick t=300 mem=4
 api_harness!(c12_misuse_then_dir_and_file, 10, {
     let mut sink = Sink::<192>::new();
-    let mut w = ZipWriter::new(sink.handle());
+    let mut w = core::mem::ManuallyDrop::new(ZipWriter::new(sink.handle())); // never dropped: Drop would re-run finalize on every early-return path
     let d0: u8 = kani::any();
     err!(w.write(&[d0]), "write before any file was accepted");
     let (o1, date1, time1, perm1) = sym_opts();
@@ -680,7 +679,6 @@ api_harness!(c12_misuse_then_dir_and_file, 10, {
         }
     }
     ok!(w.finish(), "finish failed");
-    core::mem::forget(w);
     assert!(!sink.overflow);
     let exp = [
         Exp { name: b"d/", content: &[], local_extra: &[], central_extra: &[], large: false, date: date1, time: time1, mode: 0o040000 | perm1, encrypted: false, raw: None },
@@ -695,7 +693,7 @@ api_harness!(c12_misuse_then_dir_and_file, 10, {
 // @h prop=C12 tier=quick t=300 mem=4
 api_harness!(c12_calls_after_finish, 10, {
     let mut sink = Sink::<128>::new();
-    let mut w = ZipWriter::new(sink.handle());
+    let mut w = core::mem::ManuallyDrop::new(ZipWriter::new(sink.handle())); // never dropped: Drop would re-run finalize on every early-return path
     let (o1, date1, time1, perm1) = sym_opts();
     ok!(w.start_file("a", o1), "start_file failed");
     ok!(w.finish(), "finish failed");
@@ -707,7 +705,6 @@ api_harness!(c12_calls_after_finish, 10, {
     err!(w.add_directory("c", o2), "add_directory after finish accepted");
     err!(w.end_extra_data(), "end_extra_data after finish accepted");
     err!(w.finish(), "second finish accepted");
-    core::mem::forget(w);
     assert_eq!(sink.end, end);
     let exp = [Exp { name: b"a", content: &[], local_extra: &[], central_extra: &[], large: false, date: date1, time: time1, mode: 0o100000 | perm1, encrypted: false, raw: None }];
     judge_archive(&sink.buf, 0, sink.end, &exp, &[]);
@@ -719,7 +716,7 @@ api_harness!(c12_calls_after_finish, 10, {
 // @h prop=C12,C01,C09 tier=quick t=300 mem=4
 api_harness!(c12_implicit_close_two_files, 10, {
     let mut sink = Sink::<192>::new();
-    let mut w = ZipWriter::new(sink.handle());
+    let mut w = core::mem::ManuallyDrop::new(ZipWriter::new(sink.handle())); // never dropped: Drop would re-run finalize on every early-return path
     let d: [u8; 3] = kani::any();
     let (o1, date1, time1, perm1) = sym_opts();
     let (o2, date2, time2, perm2) = sym_opts();
@@ -729,7 +726,6 @@ api_harness!(c12_implicit_close_two_files, 10, {
     ok!(w.write_all(&d[1..2]), "write failed");
     ok!(w.write_all(&d[2..3]), "write failed");
     ok!(w.finish(), "finish failed");
-    core::mem::forget(w);
     let exp = [
         Exp { name: b"a", content: &d[..1], local_extra: &[], central_extra: &[], large: false, date: date1, time: time1, mode: 0o100000 | perm1, encrypted: false, raw: None },
         Exp { name: b"b", content: &d[1..3], local_extra: &[], central_extra: &[], large: false, date: date2, time: time2, mode: 0o100000 | perm2, encrypted: false, raw: None },
@@ -743,7 +739,7 @@ api_harness!(c12_implicit_close_two_files, 10, {
 // @h prop=C01,C12 tier=quick t=300 mem=4
 api_harness!(c01_symlink_and_comment, 10, {
     let mut sink = Sink::<128>::new();
-    let mut w = ZipWriter::new(sink.handle());
+    let mut w = core::mem::ManuallyDrop::new(ZipWriter::new(sink.handle())); // never dropped: Drop would re-run finalize on every early-return path
     let cm: [u8; 2] = kani::any();
     w.set_raw_comment(cm.to_vec());
     let (o1, date1, time1, perm1) = sym_opts();
@@ -752,7 +748,6 @@ api_harness!(c01_symlink_and_comment, 10, {
     ok!(w.add_symlink("s", t, o1), "add_symlink failed");
     err!(w.write(&[1u8]), "write after a symlink was accepted");
     ok!(w.finish(), "finish failed");
-    core::mem::forget(w);
     let exp = [Exp { name: b"s", content: &tb, local_extra: &[], central_extra: &[], large: false, date: date1, time: time1, mode: 0o120000 | perm1, encrypted: false, raw: None }];
     judge_archive(&sink.buf, 0, sink.end, &exp, &cm);
     kani::cover!(true);
@@ -761,14 +756,16 @@ api_harness!(c01_symlink_and_comment, 10, {
 /// C12: an unsupported compression method is refused by start_file with an error (no panic);
 /// whatever the writer's state afterwards, a later finish() either fails or yields an archive
 /// that does not contain the refused entry.
-// @h prop=C12 tier=dev t=1800 mem=10
+// @h prop=C12 tier=quick t=300 mem=4 uws="fn:^std::ptr::drop_glue::<std::io::Error>$:2"
 api_harness!(c12_unsupported_method_refused, 10, {
     let mut sink = Sink::<128>::new();
-    let mut w = ZipWriter::new(sink.handle());
+    let mut w = core::mem::ManuallyDrop::new(ZipWriter::new(sink.handle())); // never dropped: Drop would re-run finalize on every early-return path
     let m: u16 = kani::any();
-    kani::assume(m != 0);
+    // the variant is concrete, the number symbolic (in this feature set every number but 0 decodes
+    // to Unsupported(n), 99 included); a symbolic *variant* would make symbolic execution follow the
+    // Stored arm too and merge a live and a closed writer
     #[allow(deprecated)]
-    let method = CompressionMethod::from_u16(m);
+    let method = CompressionMethod::Unsupported(m);
     let (o1, _, _, _) = sym_opts();
     err!(w.start_file("a", o1.compression_method(method)), "unsupported method accepted");
     match w.finish() {
@@ -784,7 +781,6 @@ api_harness!(c12_unsupported_method_refused, 10, {
     }
     kani::cover!(m == 99);
     kani::cover!(m == 8);
-    core::mem::forget(w);
 });
 
 /// C17/C12: extra data through the extra-data calls, shared variant: start_file_with_extra_data,
@@ -794,7 +790,7 @@ api_harness!(c12_unsupported_method_refused, 10, {
 // @h prop=C17,C12 tier=quick t=840 mem=7 uws="write19validate_extra_data\.0$:4;Iterator3any.*validate_extra_data:51"
 api_harness!(c17_extra_shared, 10, {
     let mut sink = Sink::<160>::new();
-    let mut w = ZipWriter::new(sink.handle());
+    let mut w = core::mem::ManuallyDrop::new(ZipWriter::new(sink.handle())); // never dropped: Drop would re-run finalize on every early-return path
     let (o1, date1, time1, perm1) = sym_opts();
     let id: u16 = kani::any();
     kani::assume(!ref_id_reserved(id));
@@ -808,7 +804,6 @@ api_harness!(c17_extra_shared, 10, {
     assert_eq!(ds, 31 + 5);
     ok!(w.write_all(&[d0]), "write failed");
     ok!(w.finish(), "finish failed");
-    core::mem::forget(w);
     let exp = [Exp { name: b"a", content: &[d0], local_extra: &rec, central_extra: &rec, large: false, date: date1, time: time1, mode: 0o100000 | perm1, encrypted: false, raw: None }];
     judge_archive(&sink.buf, 0, sink.end, &exp, &[]);
     kani::cover!(id == 0xbeef);
@@ -820,7 +815,7 @@ api_harness!(c17_extra_shared, 10, {
 // @h prop=C17,C12 tier=dev t=1800 mem=20 uws="write19validate_extra_data\.0$:4;Iterator3any.*validate_extra_data:51"
 api_harness!(c17_extra_local_and_central, 10, {
     let mut sink = Sink::<160>::new();
-    let mut w = ZipWriter::new(sink.handle());
+    let mut w = core::mem::ManuallyDrop::new(ZipWriter::new(sink.handle())); // never dropped: Drop would re-run finalize on every early-return path
     let (o1, date1, time1, perm1) = sym_opts();
     let id1: u16 = kani::any();
     let id2: u16 = kani::any();
@@ -839,7 +834,6 @@ api_harness!(c17_extra_local_and_central, 10, {
     assert_eq!(ds2, 31 + 5);
     ok!(w.write_all(&[d0]), "write failed");
     ok!(w.finish(), "finish failed");
-    core::mem::forget(w);
     let exp = [Exp { name: b"a", content: &[d0], local_extra: &lrec, central_extra: &crec, large: false, date: date1, time: time1, mode: 0o100000 | perm1, encrypted: false, raw: None }];
     judge_archive(&sink.buf, 0, sink.end, &exp, &[]);
     kani::cover!(true);
@@ -850,7 +844,7 @@ api_harness!(c17_extra_local_and_central, 10, {
 // @h prop=C17,C12 tier=quick t=360 mem=4 uws="write19validate_extra_data\.0$:4;Iterator3any.*validate_extra_data:51"
 api_harness!(c17_extra_reserved_refused, 10, {
     let mut sink = Sink::<160>::new();
-    let mut w = ZipWriter::new(sink.handle());
+    let mut w = core::mem::ManuallyDrop::new(ZipWriter::new(sink.handle())); // never dropped: Drop would re-run finalize on every early-return path
     let (o1, _, _, _) = sym_opts();
     let id: u16 = kani::any();
     let sz: u16 = kani::any();
@@ -862,7 +856,6 @@ api_harness!(c17_extra_reserved_refused, 10, {
     err!(w.end_extra_data(), "reserved/truncated extra data accepted");
     kani::cover!(id == 1);
     kani::cover!(id == 0xbeef && sz == 2);
-    core::mem::forget(w);
 });
 
 /// C17/C12/C02: shared extra data on a large_file(true) entry: the local extra-field length
@@ -870,7 +863,7 @@ api_harness!(c17_extra_reserved_refused, 10, {
 // @h prop=C17,C12,C02 tier=quick t=840 mem=7 uws="write19validate_extra_data\.0$:4;Iterator3any.*validate_extra_data:51"
 api_harness!(c17_extra_shared_large, 10, {
     let mut sink = Sink::<192>::new();
-    let mut w = ZipWriter::new(sink.handle());
+    let mut w = core::mem::ManuallyDrop::new(ZipWriter::new(sink.handle())); // never dropped: Drop would re-run finalize on every early-return path
     let (o1, date1, time1, perm1) = sym_opts();
     let o1 = o1.large_file(true);
     let id: u16 = kani::any();
@@ -885,7 +878,6 @@ api_harness!(c17_extra_shared_large, 10, {
     assert_eq!(ds, 31 + 20 + 5);
     ok!(w.write_all(&[d0]), "write failed");
     ok!(w.finish(), "finish failed");
-    core::mem::forget(w);
     let exp = [Exp { name: b"a", content: &[d0], local_extra: &rec, central_extra: &rec, large: true, date: date1, time: time1, mode: 0o100000 | perm1, encrypted: false, raw: None }];
     judge_archive(&sink.buf, 0, sink.end, &exp, &[]);
     kani::cover!(id == 0xbeef);
@@ -896,7 +888,7 @@ api_harness!(c17_extra_shared_large, 10, {
 // @h prop=C17,C12 tier=quick t=360 mem=4 uws="write19validate_extra_data\.0$:4;Iterator3any.*validate_extra_data:51"
 api_harness!(c17_central_only_reserved_refused, 10, {
     let mut sink = Sink::<160>::new();
-    let mut w = ZipWriter::new(sink.handle());
+    let mut w = core::mem::ManuallyDrop::new(ZipWriter::new(sink.handle())); // never dropped: Drop would re-run finalize on every early-return path
     let (o1, _, _, _) = sym_opts();
     let id: u16 = kani::any();
     let sz: u16 = kani::any();
@@ -909,7 +901,6 @@ api_harness!(c17_central_only_reserved_refused, 10, {
     err!(w.end_extra_data(), "reserved/truncated central-only extra data accepted");
     kani::cover!(id == 1);
     kani::cover!(id == 0xbeef && sz == 2);
-    core::mem::forget(w);
 });
 
 /// C09 writer half / C01: the sink accepts the entry DATA in arbitrary short writes (1..=4 bytes per
@@ -918,7 +909,7 @@ api_harness!(c17_central_only_reserved_refused, 10, {
 // @h prop=C09,C01 tier=dev t=1500 mem=8
 api_harness!(c09_writer_short_data_writes, 10, {
     let mut sink = Sink::<128>::new();
-    let mut w = ZipWriter::new(sink.handle());
+    let mut w = core::mem::ManuallyDrop::new(ZipWriter::new(sink.handle())); // never dropped: Drop would re-run finalize on every early-return path
     let d: [u8; 3] = kani::any();
     let (o1, date1, time1, perm1) = sym_opts();
     ok!(w.start_file("a", o1), "start_file failed");
@@ -927,7 +918,6 @@ api_harness!(c09_writer_short_data_writes, 10, {
     ok!(w.write_all(&d), "write failed");
     sink.env.short = false;
     ok!(w.finish(), "finish failed");
-    core::mem::forget(w);
     let exp = [Exp { name: b"a", content: &d, local_extra: &[], central_extra: &[], large: false, date: date1, time: time1, mode: 0o100000 | perm1, encrypted: false, raw: None }];
     judge_archive(&sink.buf, 0, sink.end, &exp, &[]);
     kani::cover!(sink.env.calls > 30);
@@ -943,9 +933,8 @@ api_harness!(c08_finalize_any_offset_empty, 10, {
     let base: u64 = kani::any();
     kani::assume(base < (1u64 << 62));
     let mut sink = Sink::<128>::with_base(base);
-    let mut w = ZipWriter::new(sink.handle());
+    let mut w = core::mem::ManuallyDrop::new(ZipWriter::new(sink.handle())); // never dropped: Drop would re-run finalize on every early-return path
     ok!(w.finish(), "finish failed");
-    core::mem::forget(w);
     let b = &sink.buf;
     if sink.end == 22 {
         assert!(base <= THR, "central directory beyond 4 GiB without a ZIP64 end record");
@@ -981,59 +970,84 @@ api_harness!(c08_finalize_any_offset_empty, 10, {
     kani::cover!(base == THR);
 });
 
-/// C08 the 4 GiB guard, one step from a constructed state ("n bytes have been written to this
-/// Stored entry", n symbolic up to 8 GiB, sink position not advanced): one more byte is accepted
-/// iff the entry was declared large or the total still fits 32 bits; when refused the writer is
-/// poisoned and no later finish() succeeds; when accepted and finished, the recorded
-/// uncompressed size is exactly n+1 (from the ZIP64 record when it does not fit or the entry is
-/// large), never a wrapped value.
-// @h prop=C08,C12 tier=dev t=1500 mem=8
-api_harness!(c08_write_guard_4gib, 10, {
-    let mut sink = Sink::<160>::new();
-    let mut w = ZipWriter::new(sink.handle());
-    let large: bool = kani::any();
-    let (o1, _, _, _) = sym_opts();
-    ok!(w.start_file("a", o1.large_file(large)), "start_file failed");
-    let n: u64 = kani::any();
-    kani::assume(n <= (1u64 << 33));
-    w.stats.bytes_written = n;
-    let d0: u8 = kani::any();
-    match w.write(&[d0]) {
-        Ok(k) => {
-            assert_eq!(k, 1);
-            assert!(large || n + 1 <= THR, "write beyond 4 GiB accepted for an entry not declared large");
-            ok!(w.finish(), "finish failed");
-            let b = &sink.buf;
-            let lx = if large { 20 } else { 0 };
-            let cd = 31 + lx + 1;
-            assert_eq!(le32(b, cd), SIG_CENTRAL);
-            let f = (le32(b, cd + 24), le32(b, cd + 20), le32(b, cd + 42));
-            let elen = le16(b, cd + 30) as usize;
-            match strict_zip64_decode(b, cd + 47, elen, f) {
-                Some((usz, csz, off, _)) => {
-                    assert_eq!(usz, n + 1);
-                    assert_eq!(csz, 1);
-                    assert_eq!(off, 0);
+macro_rules! c08_write_guard {
+    ($name:ident, $large:expr) => {
+        #[kani::proof]
+        #[kani::unwind(10)]
+        #[kani::stub(time::OffsetDateTime::now_utc, crate::verif_kit::stub_now_utc)]
+        #[kani::stub(crc32fast::Hasher::internal_new_specialized, crate::verif_kit::stub_crc_specialized)]
+        #[kani::stub(alloc::fmt::format, crate::verif_kit::stub_format)]
+        fn $name() {
+            const LARGE: bool = $large;
+            let mut sink = Sink::<160>::new();
+            let mut w = core::mem::ManuallyDrop::new(ZipWriter::new(sink.handle()));
+            let (o1, _, _, _) = sym_opts();
+            ok!(w.start_file("a", o1.large_file(LARGE)), "start_file failed");
+            let n: u64 = kani::any();
+            kani::assume(n <= (1u64 << 33));
+            w.stats.bytes_written = n;
+            let d0: u8 = kani::any();
+            let mut refused = false;
+            match w.write(&[d0]) {
+                Ok(k) => {
+                    assert_eq!(k, 1);
+                    assert!(LARGE || n + 1 <= THR, "write beyond 4 GiB accepted for an entry not declared large");
+                    // the writer is still open and counted the byte; continue from exactly that
+                    // state, written back as constants for the symbolic execution (write() merges an
+                    // open and a poisoned writer, which would make every later access a two-way case)
+                    assert!(matches!(w.inner, GenericZipWriter::Storer(MaybeEncrypted::Unencrypted(_))));
+                    assert_eq!(w.stats.bytes_written, n + 1);
+                    w.inner = GenericZipWriter::Storer(MaybeEncrypted::Unencrypted(sink.handle()));
+                    w.stats.bytes_written = n + 1;
+                    ok!(w.finish(), "finish failed");
+                    let b = &sink.buf;
+                    let lx = if LARGE { 20 } else { 0 };
+                    let cd = 31 + lx + 1;
+                    assert_eq!(le32(b, cd), SIG_CENTRAL);
+                    let f = (le32(b, cd + 24), le32(b, cd + 20), le32(b, cd + 42));
+                    let elen = le16(b, cd + 30) as usize;
+                    match strict_zip64_decode(b, cd + 47, elen, f) {
+                        Some((usz, csz, off, _)) => {
+                            assert_eq!(usz, n + 1);
+                            assert_eq!(csz, 1);
+                            assert_eq!(off, 0);
+                        }
+                        None => assert!(false, "central ZIP64 record inconsistent"),
+                    }
+                    if LARGE {
+                        assert_eq!(le64(b, 35), n + 1);
+                    } else {
+                        assert_eq!(le32(b, 22) as u64, n + 1);
+                    }
+                    kani::cover!(n + 1 > THR || !LARGE);
+                    kani::cover!(n + 1 == THR || LARGE);
                 }
-                None => assert!(false, "central ZIP64 record inconsistent"),
+                Err(e) => {
+                    core::mem::forget(e);
+                    assert!(!LARGE && n + 1 > THR, "write refused although the entry may grow");
+                    // poisoned: closed for good
+                    assert!(matches!(w.inner, GenericZipWriter::Closed));
+                    w.inner = GenericZipWriter::Closed;
+                    err!(w.finish(), "finish() succeeded after the 4 GiB guard fired");
+                    err!(w.write(&[d0]), "write accepted after the 4 GiB guard fired");
+                    refused = true;
+                }
             }
-            if large {
-                assert_eq!(le64(b, 35), n + 1);
-            } else {
-                assert_eq!(le32(b, 22) as u64, n + 1);
-            }
-            kani::cover!(large && n + 1 > THR);
-            kani::cover!(!large && n + 1 == THR);
+            kani::cover!(LARGE || refused);
         }
-        Err(e) => {
-            core::mem::forget(e);
-            assert!(!large && n + 1 > THR, "write refused although the entry may grow");
-            err!(w.finish(), "finish() succeeded after the 4 GiB guard fired");
-            kani::cover!(true);
-        }
-    }
-    core::mem::forget(w);
-});
+    };
+}
+/// C08 the 4 GiB guard, one step from a constructed state ("n bytes have been written to this
+/// Stored entry", n symbolic up to 8 GiB, sink position not advanced), entry NOT declared large:
+/// one more byte is accepted iff the total still fits 32 bits; when refused the writer is
+/// poisoned and no later finish() or write succeeds; when accepted and finished, the recorded
+/// uncompressed size is exactly n+1, never a wrapped value.
+// @h prop=C08,C12 tier=quick t=300 mem=4 name=c08_write_guard_4gib uws="fn:^std::ptr::drop_glue::<std::io::Error>$:2;4Sink.*9write_all.*\.1$:30"
+c08_write_guard!(c08_write_guard_4gib, false);
+/// C08 the same step for an entry declared large_file(true): always accepted; the ZIP64 records
+/// (local and central) carry exactly n+1 for every n up to 8 GiB.
+// @h prop=C08,C12 tier=quick t=300 mem=4 name=c08_write_guard_4gib_large uws="fn:^std::ptr::drop_glue::<std::io::Error>$:2;4Sink.*9write_all.*\.1$:30"
+c08_write_guard!(c08_write_guard_4gib_large, true);
 
 /// C17 alignment for every small alignment value and every preceding file offset: an entry
 /// started with start_file_aligned(align in 0..=8) at an arbitrary 40-bit file position has its
@@ -1047,7 +1061,7 @@ api_harness!(c17_aligned_small_any_offset, 12, {
     let align: u16 = kani::any();
     kani::assume(align <= 8);
     let mut sink = Sink::<128>::with_base(base);
-    let mut w = ZipWriter::new(sink.handle());
+    let mut w = core::mem::ManuallyDrop::new(ZipWriter::new(sink.handle())); // never dropped: Drop would re-run finalize on every early-return path
     let (o1, _, _, _) = sym_opts();
     let d0: u8 = kani::any();
     let pad = match w.start_file_aligned("a", o1, align) {
@@ -1060,7 +1074,6 @@ api_harness!(c17_aligned_small_any_offset, 12, {
     };
     ok!(w.write_all(&[d0]), "write failed");
     ok!(w.finish(), "finish failed");
-    core::mem::forget(w);
     let b = &sink.buf;
     assert_eq!(le32(b, 0), SIG_LOCAL);
     assert_eq!(le16(b, 26), 1);
@@ -1117,7 +1130,7 @@ fn c14_raw_copy_between_neighbours() {
     kani::assume(srcdata.uncompressed_size <= 0xFFFF_FFFF);
     let mut src = Src::<2>::new(payload, 2);
     let mut sink = Sink::<224>::new();
-    let mut w = ZipWriter::new(sink.handle());
+    let mut w = core::mem::ManuallyDrop::new(ZipWriter::new(sink.handle())); // never dropped: Drop would re-run finalize on every early-return path
     let (o1, date1, time1, perm1) = sym_opts();
     let (o3, date3, time3, perm3) = sym_opts();
     let d: [u8; 2] = kani::any();
@@ -1130,7 +1143,6 @@ fn c14_raw_copy_between_neighbours() {
     ok!(w.start_file("z", o3), "start_file z failed");
     ok!(w.write_all(&d[1..]), "write failed");
     ok!(w.finish(), "finish failed");
-    core::mem::forget(w);
     let eattr = srcdata.external_attributes;
     let src_mode = match srcdata.system {
         System::Unix if eattr != 0 => Some(eattr >> 16),
@@ -1160,65 +1172,357 @@ fn c14_raw_copy_between_neighbours() {
     core::mem::forget(srcdata);
 }
 
-/// C11 writer: the sink fails at ONE arbitrary I/O call (symbolic index, any of write / seek /
-/// flush) during start_file(a), write, start_file(b), write, finish. No call panics (then or
-/// later), and if no call reported an error the produced archive is exactly the failure-free one.
-// @h prop=C11,C12 tier=dev t=2400 mem=10
-api_harness!(c11_writer_fault_any_point, 10, {
-    let k: u32 = kani::any();
-    let kinds: u8 = kani::any();
-    let mut sink = Sink::<192>::with_env(Env::faulty(k, kinds));
-    let mut w = ZipWriter::new(sink.handle());
-    let d: [u8; 2] = kani::any();
-    let (o1, date1, time1, perm1) = sym_opts();
-    let (o2, date2, time2, perm2) = sym_opts();
-    let mut any_err = false;
-    match w.start_file("a", o1) {
-        Ok(()) => {}
-        Err(e) => {
-            core::mem::forget(e);
-            any_err = true;
+// C11 writer: the sink fails at ONE I/O call. The call index is concrete per harness variant
+// (every index of the scenario gets its own variant), everything else - payload, times,
+// permissions - is symbolic. A symbolic index would make every later writer state a merge of a
+// failed and a healthy writer (symbolic execution then follows both through every later call):
+// > 10 GB, no verdict.
+macro_rules! c11_fault_at {
+    ($name:ident, $k:expr) => {
+        #[kani::proof]
+        #[kani::unwind(10)]
+        #[kani::stub(time::OffsetDateTime::now_utc, crate::verif_kit::stub_now_utc)]
+        #[kani::stub(crc32fast::Hasher::internal_new_specialized, crate::verif_kit::stub_crc_specialized)]
+        #[kani::stub(alloc::fmt::format, crate::verif_kit::stub_format)]
+        #[kani::stub(core::fmt::write, crate::verif_kit::stub_fmt_write)]
+        fn $name() {
+            let mut sink = Sink::<192>::with_env(Env::faulty($k, K_READ | K_WRITE | K_FLUSH | K_SEEK));
+            let mut w = core::mem::ManuallyDrop::new(ZipWriter::new(sink.handle()));
+            let d: [u8; 2] = kani::any();
+            let (o1, date1, time1, perm1) = sym_opts();
+            let (o2, date2, time2, perm2) = sym_opts();
+            let mut any_err = false;
+            match w.start_file("a", o1) {
+                Ok(()) => {}
+                Err(e) => {
+                    core::mem::forget(e);
+                    any_err = true;
+                }
+            }
+            // Write::write, not write_all: std's write_all inspects and drops a refused call's
+            // io::Error (tagged-pointer decoding of a boxed custom error), which CBMC cannot follow
+            match w.write(&d[..1]) {
+                Ok(n) => assert_eq!(n, 1),
+                Err(e) => {
+                    core::mem::forget(e);
+                    any_err = true;
+                }
+            }
+            match w.start_file("b", o2) {
+                Ok(()) => {}
+                Err(e) => {
+                    core::mem::forget(e);
+                    any_err = true;
+                }
+            }
+            match w.write(&d[1..]) {
+                Ok(n) => assert_eq!(n, 1),
+                Err(e) => {
+                    core::mem::forget(e);
+                    any_err = true;
+                }
+            }
+            match w.finish() {
+                Ok(_) => {}
+                Err(e) => {
+                    core::mem::forget(e);
+                    any_err = true;
+                }
+            }
+            // the implicit finalisation a caller gets by dropping the writer must not panic either
+            unsafe { core::mem::ManuallyDrop::drop(&mut w) };
+            if !any_err {
+                let exp = [
+                    Exp { name: b"a", content: &d[..1], local_extra: &[], central_extra: &[], large: false, date: date1, time: time1, mode: 0o100000 | perm1, encrypted: false, raw: None },
+                    Exp { name: b"b", content: &d[1..], local_extra: &[], central_extra: &[], large: false, date: date2, time: time2, mode: 0o100000 | perm2, encrypted: false, raw: None },
+                ];
+                judge_archive(&sink.buf, 0, sink.end, &exp, &[]);
+            }
+            // a fault inside the scenario is always reported by some call
+            assert!(!sink.env.faulted || any_err, "an I/O failure was swallowed");
+            kani::cover!(true);
         }
-    }
-    match w.write_all(&d[..1]) {
-        Ok(()) => {}
-        Err(e) => {
-            core::mem::forget(e);
-            any_err = true;
-        }
-    }
-    match w.start_file("b", o2) {
-        Ok(()) => {}
-        Err(e) => {
-            core::mem::forget(e);
-            any_err = true;
-        }
-    }
-    match w.write_all(&d[1..]) {
-        Ok(()) => {}
-        Err(e) => {
-            core::mem::forget(e);
-            any_err = true;
-        }
-    }
-    match w.finish() {
-        Ok(_) => {}
-        Err(e) => {
-            core::mem::forget(e);
-            any_err = true;
-        }
-    }
-    core::mem::forget(w);
-    if !any_err {
-        let exp = [
-            Exp { name: b"a", content: &d[..1], local_extra: &[], central_extra: &[], large: false, date: date1, time: time1, mode: 0o100000 | perm1, encrypted: false, raw: None },
-            Exp { name: b"b", content: &d[1..], local_extra: &[], central_extra: &[], large: false, date: date2, time: time2, mode: 0o100000 | perm2, encrypted: false, raw: None },
-        ];
-        judge_archive(&sink.buf, 0, sink.end, &exp, &[]);
-    }
-    kani::cover!(any_err && sink.env.faulted);
-    kani::cover!(!any_err);
-});
+    };
+}
+/// C11 writer scenario (start_file a, write, start_file b, write, finish, drop): the sink's I/O call number 0 fails (whatever its kind: write, seek or flush). No call panics - neither then nor later, incl. the implicit finalisation on drop -, the failure is reported by some call, and a failure-free run yields exactly the reference archive.
+// @h prop=C11,C12 tier=quick t=300 mem=4 name=c11_writer_fault_k000 uws="fn:^std::ptr::drop_glue::<:2;fn:Drop>::drop$:2;fn:drop_box_raw:2;fn:^std::mem::drop::<:2"
+c11_fault_at!(c11_writer_fault_k000, 0);
+/// C11 writer scenario (start_file a, write, start_file b, write, finish, drop): the sink's I/O call number 1 fails (whatever its kind: write, seek or flush). No call panics - neither then nor later, incl. the implicit finalisation on drop -, the failure is reported by some call, and a failure-free run yields exactly the reference archive.
+// @h prop=C11,C12 tier=thorough t=300 mem=4 name=c11_writer_fault_k001 uws="fn:^std::ptr::drop_glue::<:2;fn:Drop>::drop$:2;fn:drop_box_raw:2;fn:^std::mem::drop::<:2"
+c11_fault_at!(c11_writer_fault_k001, 1);
+/// C11 writer scenario (start_file a, write, start_file b, write, finish, drop): the sink's I/O call number 2 fails (whatever its kind: write, seek or flush). No call panics - neither then nor later, incl. the implicit finalisation on drop -, the failure is reported by some call, and a failure-free run yields exactly the reference archive.
+// @h prop=C11,C12 tier=thorough t=300 mem=4 name=c11_writer_fault_k002 uws="fn:^std::ptr::drop_glue::<:2;fn:Drop>::drop$:2;fn:drop_box_raw:2;fn:^std::mem::drop::<:2"
+c11_fault_at!(c11_writer_fault_k002, 2);
+/// C11 writer scenario (start_file a, write, start_file b, write, finish, drop): the sink's I/O call number 3 fails (whatever its kind: write, seek or flush). No call panics - neither then nor later, incl. the implicit finalisation on drop -, the failure is reported by some call, and a failure-free run yields exactly the reference archive.
+// @h prop=C11,C12 tier=thorough t=300 mem=4 name=c11_writer_fault_k003 uws="fn:^std::ptr::drop_glue::<:2;fn:Drop>::drop$:2;fn:drop_box_raw:2;fn:^std::mem::drop::<:2"
+c11_fault_at!(c11_writer_fault_k003, 3);
+/// C11 writer scenario (start_file a, write, start_file b, write, finish, drop): the sink's I/O call number 4 fails (whatever its kind: write, seek or flush). No call panics - neither then nor later, incl. the implicit finalisation on drop -, the failure is reported by some call, and a failure-free run yields exactly the reference archive.
+// @h prop=C11,C12 tier=thorough t=300 mem=4 name=c11_writer_fault_k004 uws="fn:^std::ptr::drop_glue::<:2;fn:Drop>::drop$:2;fn:drop_box_raw:2;fn:^std::mem::drop::<:2"
+c11_fault_at!(c11_writer_fault_k004, 4);
+/// C11 writer scenario (start_file a, write, start_file b, write, finish, drop): the sink's I/O call number 5 fails (whatever its kind: write, seek or flush). No call panics - neither then nor later, incl. the implicit finalisation on drop -, the failure is reported by some call, and a failure-free run yields exactly the reference archive.
+// @h prop=C11,C12 tier=thorough t=300 mem=4 name=c11_writer_fault_k005 uws="fn:^std::ptr::drop_glue::<:2;fn:Drop>::drop$:2;fn:drop_box_raw:2;fn:^std::mem::drop::<:2"
+c11_fault_at!(c11_writer_fault_k005, 5);
+/// C11 writer scenario (start_file a, write, start_file b, write, finish, drop): the sink's I/O call number 6 fails (whatever its kind: write, seek or flush). No call panics - neither then nor later, incl. the implicit finalisation on drop -, the failure is reported by some call, and a failure-free run yields exactly the reference archive.
+// @h prop=C11,C12 tier=thorough t=300 mem=4 name=c11_writer_fault_k006 uws="fn:^std::ptr::drop_glue::<:2;fn:Drop>::drop$:2;fn:drop_box_raw:2;fn:^std::mem::drop::<:2"
+c11_fault_at!(c11_writer_fault_k006, 6);
+/// C11 writer scenario (start_file a, write, start_file b, write, finish, drop): the sink's I/O call number 7 fails (whatever its kind: write, seek or flush). No call panics - neither then nor later, incl. the implicit finalisation on drop -, the failure is reported by some call, and a failure-free run yields exactly the reference archive.
+// @h prop=C11,C12 tier=thorough t=300 mem=4 name=c11_writer_fault_k007 uws="fn:^std::ptr::drop_glue::<:2;fn:Drop>::drop$:2;fn:drop_box_raw:2;fn:^std::mem::drop::<:2"
+c11_fault_at!(c11_writer_fault_k007, 7);
+/// C11 writer scenario (start_file a, write, start_file b, write, finish, drop): the sink's I/O call number 8 fails (whatever its kind: write, seek or flush). No call panics - neither then nor later, incl. the implicit finalisation on drop -, the failure is reported by some call, and a failure-free run yields exactly the reference archive.
+// @h prop=C11,C12 tier=thorough t=300 mem=4 name=c11_writer_fault_k008 uws="fn:^std::ptr::drop_glue::<:2;fn:Drop>::drop$:2;fn:drop_box_raw:2;fn:^std::mem::drop::<:2"
+c11_fault_at!(c11_writer_fault_k008, 8);
+/// C11 writer scenario (start_file a, write, start_file b, write, finish, drop): the sink's I/O call number 9 fails (whatever its kind: write, seek or flush). No call panics - neither then nor later, incl. the implicit finalisation on drop -, the failure is reported by some call, and a failure-free run yields exactly the reference archive.
+// @h prop=C11,C12 tier=thorough t=300 mem=4 name=c11_writer_fault_k009 uws="fn:^std::ptr::drop_glue::<:2;fn:Drop>::drop$:2;fn:drop_box_raw:2;fn:^std::mem::drop::<:2"
+c11_fault_at!(c11_writer_fault_k009, 9);
+/// C11 writer scenario (start_file a, write, start_file b, write, finish, drop): the sink's I/O call number 10 fails (whatever its kind: write, seek or flush). No call panics - neither then nor later, incl. the implicit finalisation on drop -, the failure is reported by some call, and a failure-free run yields exactly the reference archive.
+// @h prop=C11,C12 tier=thorough t=300 mem=4 name=c11_writer_fault_k010 uws="fn:^std::ptr::drop_glue::<:2;fn:Drop>::drop$:2;fn:drop_box_raw:2;fn:^std::mem::drop::<:2"
+c11_fault_at!(c11_writer_fault_k010, 10);
+/// C11 writer scenario (start_file a, write, start_file b, write, finish, drop): the sink's I/O call number 11 fails (whatever its kind: write, seek or flush). No call panics - neither then nor later, incl. the implicit finalisation on drop -, the failure is reported by some call, and a failure-free run yields exactly the reference archive.
+// @h prop=C11,C12 tier=thorough t=300 mem=4 name=c11_writer_fault_k011 uws="fn:^std::ptr::drop_glue::<:2;fn:Drop>::drop$:2;fn:drop_box_raw:2;fn:^std::mem::drop::<:2"
+c11_fault_at!(c11_writer_fault_k011, 11);
+/// C11 writer scenario (start_file a, write, start_file b, write, finish, drop): the sink's I/O call number 12 fails (whatever its kind: write, seek or flush). No call panics - neither then nor later, incl. the implicit finalisation on drop -, the failure is reported by some call, and a failure-free run yields exactly the reference archive.
+// @h prop=C11,C12 tier=thorough t=300 mem=4 name=c11_writer_fault_k012 uws="fn:^std::ptr::drop_glue::<:2;fn:Drop>::drop$:2;fn:drop_box_raw:2;fn:^std::mem::drop::<:2"
+c11_fault_at!(c11_writer_fault_k012, 12);
+/// C11 writer scenario (start_file a, write, start_file b, write, finish, drop): the sink's I/O call number 13 fails (whatever its kind: write, seek or flush). No call panics - neither then nor later, incl. the implicit finalisation on drop -, the failure is reported by some call, and a failure-free run yields exactly the reference archive.
+// @h prop=C11,C12 tier=quick t=300 mem=4 name=c11_writer_fault_k013 uws="fn:^std::ptr::drop_glue::<:2;fn:Drop>::drop$:2;fn:drop_box_raw:2;fn:^std::mem::drop::<:2"
+c11_fault_at!(c11_writer_fault_k013, 13);
+/// C11 writer scenario (start_file a, write, start_file b, write, finish, drop): the sink's I/O call number 14 fails (whatever its kind: write, seek or flush). No call panics - neither then nor later, incl. the implicit finalisation on drop -, the failure is reported by some call, and a failure-free run yields exactly the reference archive.
+// @h prop=C11,C12 tier=quick t=300 mem=4 name=c11_writer_fault_k014 uws="fn:^std::ptr::drop_glue::<:2;fn:Drop>::drop$:2;fn:drop_box_raw:2;fn:^std::mem::drop::<:2"
+c11_fault_at!(c11_writer_fault_k014, 14);
+/// C11 writer scenario (start_file a, write, start_file b, write, finish, drop): the sink's I/O call number 15 fails (whatever its kind: write, seek or flush). No call panics - neither then nor later, incl. the implicit finalisation on drop -, the failure is reported by some call, and a failure-free run yields exactly the reference archive.
+// @h prop=C11,C12 tier=quick t=300 mem=4 name=c11_writer_fault_k015 uws="fn:^std::ptr::drop_glue::<:2;fn:Drop>::drop$:2;fn:drop_box_raw:2;fn:^std::mem::drop::<:2"
+c11_fault_at!(c11_writer_fault_k015, 15);
+/// C11 writer scenario (start_file a, write, start_file b, write, finish, drop): the sink's I/O call number 16 fails (whatever its kind: write, seek or flush). No call panics - neither then nor later, incl. the implicit finalisation on drop -, the failure is reported by some call, and a failure-free run yields exactly the reference archive.
+// @h prop=C11,C12 tier=quick t=300 mem=4 name=c11_writer_fault_k016 uws="fn:^std::ptr::drop_glue::<:2;fn:Drop>::drop$:2;fn:drop_box_raw:2;fn:^std::mem::drop::<:2"
+c11_fault_at!(c11_writer_fault_k016, 16);
+/// C11 writer scenario (start_file a, write, start_file b, write, finish, drop): the sink's I/O call number 17 fails (whatever its kind: write, seek or flush). No call panics - neither then nor later, incl. the implicit finalisation on drop -, the failure is reported by some call, and a failure-free run yields exactly the reference archive.
+// @h prop=C11,C12 tier=quick t=1500 mem=14 name=c11_writer_fault_k017 uws="fn:^std::ptr::drop_glue::<:2;fn:Drop>::drop$:2;fn:drop_box_raw:2;fn:^std::mem::drop::<:2"
+c11_fault_at!(c11_writer_fault_k017, 17);
+/// C11 writer scenario (start_file a, write, start_file b, write, finish, drop): the sink's I/O call number 18 fails (whatever its kind: write, seek or flush). No call panics - neither then nor later, incl. the implicit finalisation on drop -, the failure is reported by some call, and a failure-free run yields exactly the reference archive.
+// @h prop=C11,C12 tier=thorough t=1500 mem=14 name=c11_writer_fault_k018 uws="fn:^std::ptr::drop_glue::<:2;fn:Drop>::drop$:2;fn:drop_box_raw:2;fn:^std::mem::drop::<:2"
+c11_fault_at!(c11_writer_fault_k018, 18);
+/// C11 writer scenario (start_file a, write, start_file b, write, finish, drop): the sink's I/O call number 19 fails (whatever its kind: write, seek or flush). No call panics - neither then nor later, incl. the implicit finalisation on drop -, the failure is reported by some call, and a failure-free run yields exactly the reference archive.
+// @h prop=C11,C12 tier=thorough t=1500 mem=14 name=c11_writer_fault_k019 uws="fn:^std::ptr::drop_glue::<:2;fn:Drop>::drop$:2;fn:drop_box_raw:2;fn:^std::mem::drop::<:2"
+c11_fault_at!(c11_writer_fault_k019, 19);
+/// C11 writer scenario (start_file a, write, start_file b, write, finish, drop): the sink's I/O call number 20 fails (whatever its kind: write, seek or flush). No call panics - neither then nor later, incl. the implicit finalisation on drop -, the failure is reported by some call, and a failure-free run yields exactly the reference archive.
+// @h prop=C11,C12 tier=thorough t=1500 mem=14 name=c11_writer_fault_k020 uws="fn:^std::ptr::drop_glue::<:2;fn:Drop>::drop$:2;fn:drop_box_raw:2;fn:^std::mem::drop::<:2"
+c11_fault_at!(c11_writer_fault_k020, 20);
+/// C11 writer scenario (start_file a, write, start_file b, write, finish, drop): the sink's I/O call number 21 fails (whatever its kind: write, seek or flush). No call panics - neither then nor later, incl. the implicit finalisation on drop -, the failure is reported by some call, and a failure-free run yields exactly the reference archive.
+// @h prop=C11,C12 tier=quick t=300 mem=4 name=c11_writer_fault_k021 uws="fn:^std::ptr::drop_glue::<:2;fn:Drop>::drop$:2;fn:drop_box_raw:2;fn:^std::mem::drop::<:2"
+c11_fault_at!(c11_writer_fault_k021, 21);
+/// C11 writer scenario (start_file a, write, start_file b, write, finish, drop): the sink's I/O call number 22 fails (whatever its kind: write, seek or flush). No call panics - neither then nor later, incl. the implicit finalisation on drop -, the failure is reported by some call, and a failure-free run yields exactly the reference archive.
+// @h prop=C11,C12 tier=thorough t=300 mem=4 name=c11_writer_fault_k022 uws="fn:^std::ptr::drop_glue::<:2;fn:Drop>::drop$:2;fn:drop_box_raw:2;fn:^std::mem::drop::<:2"
+c11_fault_at!(c11_writer_fault_k022, 22);
+/// C11 writer scenario (start_file a, write, start_file b, write, finish, drop): the sink's I/O call number 23 fails (whatever its kind: write, seek or flush). No call panics - neither then nor later, incl. the implicit finalisation on drop -, the failure is reported by some call, and a failure-free run yields exactly the reference archive.
+// @h prop=C11,C12 tier=thorough t=300 mem=4 name=c11_writer_fault_k023 uws="fn:^std::ptr::drop_glue::<:2;fn:Drop>::drop$:2;fn:drop_box_raw:2;fn:^std::mem::drop::<:2"
+c11_fault_at!(c11_writer_fault_k023, 23);
+/// C11 writer scenario (start_file a, write, start_file b, write, finish, drop): the sink's I/O call number 24 fails (whatever its kind: write, seek or flush). No call panics - neither then nor later, incl. the implicit finalisation on drop -, the failure is reported by some call, and a failure-free run yields exactly the reference archive.
+// @h prop=C11,C12 tier=thorough t=300 mem=4 name=c11_writer_fault_k024 uws="fn:^std::ptr::drop_glue::<:2;fn:Drop>::drop$:2;fn:drop_box_raw:2;fn:^std::mem::drop::<:2"
+c11_fault_at!(c11_writer_fault_k024, 24);
+/// C11 writer scenario (start_file a, write, start_file b, write, finish, drop): the sink's I/O call number 25 fails (whatever its kind: write, seek or flush). No call panics - neither then nor later, incl. the implicit finalisation on drop -, the failure is reported by some call, and a failure-free run yields exactly the reference archive.
+// @h prop=C11,C12 tier=thorough t=300 mem=4 name=c11_writer_fault_k025 uws="fn:^std::ptr::drop_glue::<:2;fn:Drop>::drop$:2;fn:drop_box_raw:2;fn:^std::mem::drop::<:2"
+c11_fault_at!(c11_writer_fault_k025, 25);
+/// C11 writer scenario (start_file a, write, start_file b, write, finish, drop): the sink's I/O call number 26 fails (whatever its kind: write, seek or flush). No call panics - neither then nor later, incl. the implicit finalisation on drop -, the failure is reported by some call, and a failure-free run yields exactly the reference archive.
+// @h prop=C11,C12 tier=thorough t=300 mem=4 name=c11_writer_fault_k026 uws="fn:^std::ptr::drop_glue::<:2;fn:Drop>::drop$:2;fn:drop_box_raw:2;fn:^std::mem::drop::<:2"
+c11_fault_at!(c11_writer_fault_k026, 26);
+/// C11 writer scenario (start_file a, write, start_file b, write, finish, drop): the sink's I/O call number 27 fails (whatever its kind: write, seek or flush). No call panics - neither then nor later, incl. the implicit finalisation on drop -, the failure is reported by some call, and a failure-free run yields exactly the reference archive.
+// @h prop=C11,C12 tier=thorough t=300 mem=4 name=c11_writer_fault_k027 uws="fn:^std::ptr::drop_glue::<:2;fn:Drop>::drop$:2;fn:drop_box_raw:2;fn:^std::mem::drop::<:2"
+c11_fault_at!(c11_writer_fault_k027, 27);
+/// C11 writer scenario (start_file a, write, start_file b, write, finish, drop): the sink's I/O call number 28 fails (whatever its kind: write, seek or flush). No call panics - neither then nor later, incl. the implicit finalisation on drop -, the failure is reported by some call, and a failure-free run yields exactly the reference archive.
+// @h prop=C11,C12 tier=thorough t=300 mem=4 name=c11_writer_fault_k028 uws="fn:^std::ptr::drop_glue::<:2;fn:Drop>::drop$:2;fn:drop_box_raw:2;fn:^std::mem::drop::<:2"
+c11_fault_at!(c11_writer_fault_k028, 28);
+/// C11 writer scenario (start_file a, write, start_file b, write, finish, drop): the sink's I/O call number 29 fails (whatever its kind: write, seek or flush). No call panics - neither then nor later, incl. the implicit finalisation on drop -, the failure is reported by some call, and a failure-free run yields exactly the reference archive.
+// @h prop=C11,C12 tier=thorough t=300 mem=4 name=c11_writer_fault_k029 uws="fn:^std::ptr::drop_glue::<:2;fn:Drop>::drop$:2;fn:drop_box_raw:2;fn:^std::mem::drop::<:2"
+c11_fault_at!(c11_writer_fault_k029, 29);
+/// C11 writer scenario (start_file a, write, start_file b, write, finish, drop): the sink's I/O call number 30 fails (whatever its kind: write, seek or flush). No call panics - neither then nor later, incl. the implicit finalisation on drop -, the failure is reported by some call, and a failure-free run yields exactly the reference archive.
+// @h prop=C11,C12 tier=thorough t=300 mem=4 name=c11_writer_fault_k030 uws="fn:^std::ptr::drop_glue::<:2;fn:Drop>::drop$:2;fn:drop_box_raw:2;fn:^std::mem::drop::<:2"
+c11_fault_at!(c11_writer_fault_k030, 30);
+/// C11 writer scenario (start_file a, write, start_file b, write, finish, drop): the sink's I/O call number 31 fails (whatever its kind: write, seek or flush). No call panics - neither then nor later, incl. the implicit finalisation on drop -, the failure is reported by some call, and a failure-free run yields exactly the reference archive.
+// @h prop=C11,C12 tier=thorough t=300 mem=4 name=c11_writer_fault_k031 uws="fn:^std::ptr::drop_glue::<:2;fn:Drop>::drop$:2;fn:drop_box_raw:2;fn:^std::mem::drop::<:2"
+c11_fault_at!(c11_writer_fault_k031, 31);
+/// C11 writer scenario (start_file a, write, start_file b, write, finish, drop): the sink's I/O call number 32 fails (whatever its kind: write, seek or flush). No call panics - neither then nor later, incl. the implicit finalisation on drop -, the failure is reported by some call, and a failure-free run yields exactly the reference archive.
+// @h prop=C11,C12 tier=thorough t=300 mem=4 name=c11_writer_fault_k032 uws="fn:^std::ptr::drop_glue::<:2;fn:Drop>::drop$:2;fn:drop_box_raw:2;fn:^std::mem::drop::<:2"
+c11_fault_at!(c11_writer_fault_k032, 32);
+/// C11 writer scenario (start_file a, write, start_file b, write, finish, drop): the sink's I/O call number 33 fails (whatever its kind: write, seek or flush). No call panics - neither then nor later, incl. the implicit finalisation on drop -, the failure is reported by some call, and a failure-free run yields exactly the reference archive.
+// @h prop=C11,C12 tier=thorough t=300 mem=4 name=c11_writer_fault_k033 uws="fn:^std::ptr::drop_glue::<:2;fn:Drop>::drop$:2;fn:drop_box_raw:2;fn:^std::mem::drop::<:2"
+c11_fault_at!(c11_writer_fault_k033, 33);
+/// C11 writer scenario (start_file a, write, start_file b, write, finish, drop): the sink's I/O call number 34 fails (whatever its kind: write, seek or flush). No call panics - neither then nor later, incl. the implicit finalisation on drop -, the failure is reported by some call, and a failure-free run yields exactly the reference archive.
+// @h prop=C11,C12 tier=quick t=300 mem=4 name=c11_writer_fault_k034 uws="fn:^std::ptr::drop_glue::<:2;fn:Drop>::drop$:2;fn:drop_box_raw:2;fn:^std::mem::drop::<:2"
+c11_fault_at!(c11_writer_fault_k034, 34);
+/// C11 writer scenario (start_file a, write, start_file b, write, finish, drop): the sink's I/O call number 35 fails (whatever its kind: write, seek or flush). No call panics - neither then nor later, incl. the implicit finalisation on drop -, the failure is reported by some call, and a failure-free run yields exactly the reference archive.
+// @h prop=C11,C12 tier=quick t=300 mem=4 name=c11_writer_fault_k035 uws="fn:^std::ptr::drop_glue::<:2;fn:Drop>::drop$:2;fn:drop_box_raw:2;fn:^std::mem::drop::<:2"
+c11_fault_at!(c11_writer_fault_k035, 35);
+/// C11 writer scenario (start_file a, write, start_file b, write, finish, drop): the sink's I/O call number 36 fails (whatever its kind: write, seek or flush). No call panics - neither then nor later, incl. the implicit finalisation on drop -, the failure is reported by some call, and a failure-free run yields exactly the reference archive.
+// @h prop=C11,C12 tier=quick t=300 mem=4 name=c11_writer_fault_k036 uws="fn:^std::ptr::drop_glue::<:2;fn:Drop>::drop$:2;fn:drop_box_raw:2;fn:^std::mem::drop::<:2"
+c11_fault_at!(c11_writer_fault_k036, 36);
+/// C11 writer scenario (start_file a, write, start_file b, write, finish, drop): the sink's I/O call number 37 fails (whatever its kind: write, seek or flush). No call panics - neither then nor later, incl. the implicit finalisation on drop -, the failure is reported by some call, and a failure-free run yields exactly the reference archive.
+// @h prop=C11,C12 tier=quick t=300 mem=4 name=c11_writer_fault_k037 uws="fn:^std::ptr::drop_glue::<:2;fn:Drop>::drop$:2;fn:drop_box_raw:2;fn:^std::mem::drop::<:2"
+c11_fault_at!(c11_writer_fault_k037, 37);
+/// C11 writer scenario (start_file a, write, start_file b, write, finish, drop): the sink's I/O call number 38 fails (whatever its kind: write, seek or flush). No call panics - neither then nor later, incl. the implicit finalisation on drop -, the failure is reported by some call, and a failure-free run yields exactly the reference archive.
+// @h prop=C11,C12 tier=thorough t=1500 mem=14 name=c11_writer_fault_k038 uws="fn:^std::ptr::drop_glue::<:2;fn:Drop>::drop$:2;fn:drop_box_raw:2;fn:^std::mem::drop::<:2"
+c11_fault_at!(c11_writer_fault_k038, 38);
+/// C11 writer scenario (start_file a, write, start_file b, write, finish, drop): the sink's I/O call number 39 fails (whatever its kind: write, seek or flush). No call panics - neither then nor later, incl. the implicit finalisation on drop -, the failure is reported by some call, and a failure-free run yields exactly the reference archive.
+// @h prop=C11,C12 tier=thorough t=1500 mem=14 name=c11_writer_fault_k039 uws="fn:^std::ptr::drop_glue::<:2;fn:Drop>::drop$:2;fn:drop_box_raw:2;fn:^std::mem::drop::<:2"
+c11_fault_at!(c11_writer_fault_k039, 39);
+/// C11 writer scenario (start_file a, write, start_file b, write, finish, drop): the sink's I/O call number 40 fails (whatever its kind: write, seek or flush). No call panics - neither then nor later, incl. the implicit finalisation on drop -, the failure is reported by some call, and a failure-free run yields exactly the reference archive.
+// @h prop=C11,C12 tier=thorough t=1500 mem=14 name=c11_writer_fault_k040 uws="fn:^std::ptr::drop_glue::<:2;fn:Drop>::drop$:2;fn:drop_box_raw:2;fn:^std::mem::drop::<:2"
+c11_fault_at!(c11_writer_fault_k040, 40);
+/// C11 writer scenario (start_file a, write, start_file b, write, finish, drop): the sink's I/O call number 41 fails (whatever its kind: write, seek or flush). No call panics - neither then nor later, incl. the implicit finalisation on drop -, the failure is reported by some call, and a failure-free run yields exactly the reference archive.
+// @h prop=C11,C12 tier=thorough t=1500 mem=14 name=c11_writer_fault_k041 uws="fn:^std::ptr::drop_glue::<:2;fn:Drop>::drop$:2;fn:drop_box_raw:2;fn:^std::mem::drop::<:2"
+c11_fault_at!(c11_writer_fault_k041, 41);
+/// C11 writer scenario (start_file a, write, start_file b, write, finish, drop): the sink's I/O call number 42 fails (whatever its kind: write, seek or flush). No call panics - neither then nor later, incl. the implicit finalisation on drop -, the failure is reported by some call, and a failure-free run yields exactly the reference archive.
+// @h prop=C11,C12 tier=quick t=300 mem=4 name=c11_writer_fault_k042 uws="fn:^std::ptr::drop_glue::<:2;fn:Drop>::drop$:2;fn:drop_box_raw:2;fn:^std::mem::drop::<:2"
+c11_fault_at!(c11_writer_fault_k042, 42);
+/// C11 writer scenario (start_file a, write, start_file b, write, finish, drop): the sink's I/O call number 43 fails (whatever its kind: write, seek or flush). No call panics - neither then nor later, incl. the implicit finalisation on drop -, the failure is reported by some call, and a failure-free run yields exactly the reference archive.
+// @h prop=C11,C12 tier=thorough t=300 mem=4 name=c11_writer_fault_k043 uws="fn:^std::ptr::drop_glue::<:2;fn:Drop>::drop$:2;fn:drop_box_raw:2;fn:^std::mem::drop::<:2"
+c11_fault_at!(c11_writer_fault_k043, 43);
+/// C11 writer scenario (start_file a, write, start_file b, write, finish, drop): the sink's I/O call number 44 fails (whatever its kind: write, seek or flush). No call panics - neither then nor later, incl. the implicit finalisation on drop -, the failure is reported by some call, and a failure-free run yields exactly the reference archive.
+// @h prop=C11,C12 tier=thorough t=300 mem=4 name=c11_writer_fault_k044 uws="fn:^std::ptr::drop_glue::<:2;fn:Drop>::drop$:2;fn:drop_box_raw:2;fn:^std::mem::drop::<:2"
+c11_fault_at!(c11_writer_fault_k044, 44);
+/// C11 writer scenario (start_file a, write, start_file b, write, finish, drop): the sink's I/O call number 45 fails (whatever its kind: write, seek or flush). No call panics - neither then nor later, incl. the implicit finalisation on drop -, the failure is reported by some call, and a failure-free run yields exactly the reference archive.
+// @h prop=C11,C12 tier=thorough t=300 mem=4 name=c11_writer_fault_k045 uws="fn:^std::ptr::drop_glue::<:2;fn:Drop>::drop$:2;fn:drop_box_raw:2;fn:^std::mem::drop::<:2"
+c11_fault_at!(c11_writer_fault_k045, 45);
+/// C11 writer scenario (start_file a, write, start_file b, write, finish, drop): the sink's I/O call number 46 fails (whatever its kind: write, seek or flush). No call panics - neither then nor later, incl. the implicit finalisation on drop -, the failure is reported by some call, and a failure-free run yields exactly the reference archive.
+// @h prop=C11,C12 tier=thorough t=300 mem=4 name=c11_writer_fault_k046 uws="fn:^std::ptr::drop_glue::<:2;fn:Drop>::drop$:2;fn:drop_box_raw:2;fn:^std::mem::drop::<:2"
+c11_fault_at!(c11_writer_fault_k046, 46);
+/// C11 writer scenario (start_file a, write, start_file b, write, finish, drop): the sink's I/O call number 47 fails (whatever its kind: write, seek or flush). No call panics - neither then nor later, incl. the implicit finalisation on drop -, the failure is reported by some call, and a failure-free run yields exactly the reference archive.
+// @h prop=C11,C12 tier=thorough t=300 mem=4 name=c11_writer_fault_k047 uws="fn:^std::ptr::drop_glue::<:2;fn:Drop>::drop$:2;fn:drop_box_raw:2;fn:^std::mem::drop::<:2"
+c11_fault_at!(c11_writer_fault_k047, 47);
+/// C11 writer scenario (start_file a, write, start_file b, write, finish, drop): the sink's I/O call number 48 fails (whatever its kind: write, seek or flush). No call panics - neither then nor later, incl. the implicit finalisation on drop -, the failure is reported by some call, and a failure-free run yields exactly the reference archive.
+// @h prop=C11,C12 tier=thorough t=300 mem=4 name=c11_writer_fault_k048 uws="fn:^std::ptr::drop_glue::<:2;fn:Drop>::drop$:2;fn:drop_box_raw:2;fn:^std::mem::drop::<:2"
+c11_fault_at!(c11_writer_fault_k048, 48);
+/// C11 writer scenario (start_file a, write, start_file b, write, finish, drop): the sink's I/O call number 49 fails (whatever its kind: write, seek or flush). No call panics - neither then nor later, incl. the implicit finalisation on drop -, the failure is reported by some call, and a failure-free run yields exactly the reference archive.
+// @h prop=C11,C12 tier=thorough t=300 mem=4 name=c11_writer_fault_k049 uws="fn:^std::ptr::drop_glue::<:2;fn:Drop>::drop$:2;fn:drop_box_raw:2;fn:^std::mem::drop::<:2"
+c11_fault_at!(c11_writer_fault_k049, 49);
+/// C11 writer scenario (start_file a, write, start_file b, write, finish, drop): the sink's I/O call number 50 fails (whatever its kind: write, seek or flush). No call panics - neither then nor later, incl. the implicit finalisation on drop -, the failure is reported by some call, and a failure-free run yields exactly the reference archive.
+// @h prop=C11,C12 tier=thorough t=300 mem=4 name=c11_writer_fault_k050 uws="fn:^std::ptr::drop_glue::<:2;fn:Drop>::drop$:2;fn:drop_box_raw:2;fn:^std::mem::drop::<:2"
+c11_fault_at!(c11_writer_fault_k050, 50);
+/// C11 writer scenario (start_file a, write, start_file b, write, finish, drop): the sink's I/O call number 51 fails (whatever its kind: write, seek or flush). No call panics - neither then nor later, incl. the implicit finalisation on drop -, the failure is reported by some call, and a failure-free run yields exactly the reference archive.
+// @h prop=C11,C12 tier=thorough t=300 mem=4 name=c11_writer_fault_k051 uws="fn:^std::ptr::drop_glue::<:2;fn:Drop>::drop$:2;fn:drop_box_raw:2;fn:^std::mem::drop::<:2"
+c11_fault_at!(c11_writer_fault_k051, 51);
+/// C11 writer scenario (start_file a, write, start_file b, write, finish, drop): the sink's I/O call number 52 fails (whatever its kind: write, seek or flush). No call panics - neither then nor later, incl. the implicit finalisation on drop -, the failure is reported by some call, and a failure-free run yields exactly the reference archive.
+// @h prop=C11,C12 tier=thorough t=300 mem=4 name=c11_writer_fault_k052 uws="fn:^std::ptr::drop_glue::<:2;fn:Drop>::drop$:2;fn:drop_box_raw:2;fn:^std::mem::drop::<:2"
+c11_fault_at!(c11_writer_fault_k052, 52);
+/// C11 writer scenario (start_file a, write, start_file b, write, finish, drop): the sink's I/O call number 53 fails (whatever its kind: write, seek or flush). No call panics - neither then nor later, incl. the implicit finalisation on drop -, the failure is reported by some call, and a failure-free run yields exactly the reference archive.
+// @h prop=C11,C12 tier=thorough t=300 mem=4 name=c11_writer_fault_k053 uws="fn:^std::ptr::drop_glue::<:2;fn:Drop>::drop$:2;fn:drop_box_raw:2;fn:^std::mem::drop::<:2"
+c11_fault_at!(c11_writer_fault_k053, 53);
+/// C11 writer scenario (start_file a, write, start_file b, write, finish, drop): the sink's I/O call number 54 fails (whatever its kind: write, seek or flush). No call panics - neither then nor later, incl. the implicit finalisation on drop -, the failure is reported by some call, and a failure-free run yields exactly the reference archive.
+// @h prop=C11,C12 tier=thorough t=300 mem=4 name=c11_writer_fault_k054 uws="fn:^std::ptr::drop_glue::<:2;fn:Drop>::drop$:2;fn:drop_box_raw:2;fn:^std::mem::drop::<:2"
+c11_fault_at!(c11_writer_fault_k054, 54);
+/// C11 writer scenario (start_file a, write, start_file b, write, finish, drop): the sink's I/O call number 55 fails (whatever its kind: write, seek or flush). No call panics - neither then nor later, incl. the implicit finalisation on drop -, the failure is reported by some call, and a failure-free run yields exactly the reference archive.
+// @h prop=C11,C12 tier=thorough t=300 mem=4 name=c11_writer_fault_k055 uws="fn:^std::ptr::drop_glue::<:2;fn:Drop>::drop$:2;fn:drop_box_raw:2;fn:^std::mem::drop::<:2"
+c11_fault_at!(c11_writer_fault_k055, 55);
+/// C11 writer scenario (start_file a, write, start_file b, write, finish, drop): the sink's I/O call number 56 fails (whatever its kind: write, seek or flush). No call panics - neither then nor later, incl. the implicit finalisation on drop -, the failure is reported by some call, and a failure-free run yields exactly the reference archive.
+// @h prop=C11,C12 tier=thorough t=300 mem=4 name=c11_writer_fault_k056 uws="fn:^std::ptr::drop_glue::<:2;fn:Drop>::drop$:2;fn:drop_box_raw:2;fn:^std::mem::drop::<:2"
+c11_fault_at!(c11_writer_fault_k056, 56);
+/// C11 writer scenario (start_file a, write, start_file b, write, finish, drop): the sink's I/O call number 57 fails (whatever its kind: write, seek or flush). No call panics - neither then nor later, incl. the implicit finalisation on drop -, the failure is reported by some call, and a failure-free run yields exactly the reference archive.
+// @h prop=C11,C12 tier=thorough t=300 mem=4 name=c11_writer_fault_k057 uws="fn:^std::ptr::drop_glue::<:2;fn:Drop>::drop$:2;fn:drop_box_raw:2;fn:^std::mem::drop::<:2"
+c11_fault_at!(c11_writer_fault_k057, 57);
+/// C11 writer scenario (start_file a, write, start_file b, write, finish, drop): the sink's I/O call number 58 fails (whatever its kind: write, seek or flush). No call panics - neither then nor later, incl. the implicit finalisation on drop -, the failure is reported by some call, and a failure-free run yields exactly the reference archive.
+// @h prop=C11,C12 tier=thorough t=300 mem=4 name=c11_writer_fault_k058 uws="fn:^std::ptr::drop_glue::<:2;fn:Drop>::drop$:2;fn:drop_box_raw:2;fn:^std::mem::drop::<:2"
+c11_fault_at!(c11_writer_fault_k058, 58);
+/// C11 writer scenario (start_file a, write, start_file b, write, finish, drop): the sink's I/O call number 59 fails (whatever its kind: write, seek or flush). No call panics - neither then nor later, incl. the implicit finalisation on drop -, the failure is reported by some call, and a failure-free run yields exactly the reference archive.
+// @h prop=C11,C12 tier=thorough t=300 mem=4 name=c11_writer_fault_k059 uws="fn:^std::ptr::drop_glue::<:2;fn:Drop>::drop$:2;fn:drop_box_raw:2;fn:^std::mem::drop::<:2"
+c11_fault_at!(c11_writer_fault_k059, 59);
+/// C11 writer scenario (start_file a, write, start_file b, write, finish, drop): the sink's I/O call number 60 fails (whatever its kind: write, seek or flush). No call panics - neither then nor later, incl. the implicit finalisation on drop -, the failure is reported by some call, and a failure-free run yields exactly the reference archive.
+// @h prop=C11,C12 tier=quick t=300 mem=4 name=c11_writer_fault_k060 uws="fn:^std::ptr::drop_glue::<:2;fn:Drop>::drop$:2;fn:drop_box_raw:2;fn:^std::mem::drop::<:2"
+c11_fault_at!(c11_writer_fault_k060, 60);
+/// C11 writer scenario (start_file a, write, start_file b, write, finish, drop): the sink's I/O call number 61 fails (whatever its kind: write, seek or flush). No call panics - neither then nor later, incl. the implicit finalisation on drop -, the failure is reported by some call, and a failure-free run yields exactly the reference archive.
+// @h prop=C11,C12 tier=thorough t=300 mem=4 name=c11_writer_fault_k061 uws="fn:^std::ptr::drop_glue::<:2;fn:Drop>::drop$:2;fn:drop_box_raw:2;fn:^std::mem::drop::<:2"
+c11_fault_at!(c11_writer_fault_k061, 61);
+/// C11 writer scenario (start_file a, write, start_file b, write, finish, drop): the sink's I/O call number 62 fails (whatever its kind: write, seek or flush). No call panics - neither then nor later, incl. the implicit finalisation on drop -, the failure is reported by some call, and a failure-free run yields exactly the reference archive.
+// @h prop=C11,C12 tier=thorough t=300 mem=4 name=c11_writer_fault_k062 uws="fn:^std::ptr::drop_glue::<:2;fn:Drop>::drop$:2;fn:drop_box_raw:2;fn:^std::mem::drop::<:2"
+c11_fault_at!(c11_writer_fault_k062, 62);
+/// C11 writer scenario (start_file a, write, start_file b, write, finish, drop): the sink's I/O call number 63 fails (whatever its kind: write, seek or flush). No call panics - neither then nor later, incl. the implicit finalisation on drop -, the failure is reported by some call, and a failure-free run yields exactly the reference archive.
+// @h prop=C11,C12 tier=thorough t=300 mem=4 name=c11_writer_fault_k063 uws="fn:^std::ptr::drop_glue::<:2;fn:Drop>::drop$:2;fn:drop_box_raw:2;fn:^std::mem::drop::<:2"
+c11_fault_at!(c11_writer_fault_k063, 63);
+/// C11 writer scenario (start_file a, write, start_file b, write, finish, drop): the sink's I/O call number 64 fails (whatever its kind: write, seek or flush). No call panics - neither then nor later, incl. the implicit finalisation on drop -, the failure is reported by some call, and a failure-free run yields exactly the reference archive.
+// @h prop=C11,C12 tier=thorough t=300 mem=4 name=c11_writer_fault_k064 uws="fn:^std::ptr::drop_glue::<:2;fn:Drop>::drop$:2;fn:drop_box_raw:2;fn:^std::mem::drop::<:2"
+c11_fault_at!(c11_writer_fault_k064, 64);
+/// C11 writer scenario (start_file a, write, start_file b, write, finish, drop): the sink's I/O call number 65 fails (whatever its kind: write, seek or flush). No call panics - neither then nor later, incl. the implicit finalisation on drop -, the failure is reported by some call, and a failure-free run yields exactly the reference archive.
+// @h prop=C11,C12 tier=thorough t=300 mem=4 name=c11_writer_fault_k065 uws="fn:^std::ptr::drop_glue::<:2;fn:Drop>::drop$:2;fn:drop_box_raw:2;fn:^std::mem::drop::<:2"
+c11_fault_at!(c11_writer_fault_k065, 65);
+/// C11 writer scenario (start_file a, write, start_file b, write, finish, drop): the sink's I/O call number 66 fails (whatever its kind: write, seek or flush). No call panics - neither then nor later, incl. the implicit finalisation on drop -, the failure is reported by some call, and a failure-free run yields exactly the reference archive.
+// @h prop=C11,C12 tier=thorough t=300 mem=4 name=c11_writer_fault_k066 uws="fn:^std::ptr::drop_glue::<:2;fn:Drop>::drop$:2;fn:drop_box_raw:2;fn:^std::mem::drop::<:2"
+c11_fault_at!(c11_writer_fault_k066, 66);
+/// C11 writer scenario (start_file a, write, start_file b, write, finish, drop): the sink's I/O call number 67 fails (whatever its kind: write, seek or flush). No call panics - neither then nor later, incl. the implicit finalisation on drop -, the failure is reported by some call, and a failure-free run yields exactly the reference archive.
+// @h prop=C11,C12 tier=thorough t=300 mem=4 name=c11_writer_fault_k067 uws="fn:^std::ptr::drop_glue::<:2;fn:Drop>::drop$:2;fn:drop_box_raw:2;fn:^std::mem::drop::<:2"
+c11_fault_at!(c11_writer_fault_k067, 67);
+/// C11 writer scenario (start_file a, write, start_file b, write, finish, drop): the sink's I/O call number 68 fails (whatever its kind: write, seek or flush). No call panics - neither then nor later, incl. the implicit finalisation on drop -, the failure is reported by some call, and a failure-free run yields exactly the reference archive.
+// @h prop=C11,C12 tier=thorough t=300 mem=4 name=c11_writer_fault_k068 uws="fn:^std::ptr::drop_glue::<:2;fn:Drop>::drop$:2;fn:drop_box_raw:2;fn:^std::mem::drop::<:2"
+c11_fault_at!(c11_writer_fault_k068, 68);
+/// C11 writer scenario (start_file a, write, start_file b, write, finish, drop): the sink's I/O call number 69 fails (whatever its kind: write, seek or flush). No call panics - neither then nor later, incl. the implicit finalisation on drop -, the failure is reported by some call, and a failure-free run yields exactly the reference archive.
+// @h prop=C11,C12 tier=thorough t=300 mem=4 name=c11_writer_fault_k069 uws="fn:^std::ptr::drop_glue::<:2;fn:Drop>::drop$:2;fn:drop_box_raw:2;fn:^std::mem::drop::<:2"
+c11_fault_at!(c11_writer_fault_k069, 69);
+/// C11 writer scenario (start_file a, write, start_file b, write, finish, drop): the sink's I/O call number 70 fails (whatever its kind: write, seek or flush). No call panics - neither then nor later, incl. the implicit finalisation on drop -, the failure is reported by some call, and a failure-free run yields exactly the reference archive.
+// @h prop=C11,C12 tier=thorough t=300 mem=4 name=c11_writer_fault_k070 uws="fn:^std::ptr::drop_glue::<:2;fn:Drop>::drop$:2;fn:drop_box_raw:2;fn:^std::mem::drop::<:2"
+c11_fault_at!(c11_writer_fault_k070, 70);
+/// C11 writer scenario (start_file a, write, start_file b, write, finish, drop): the sink's I/O call number 71 fails (whatever its kind: write, seek or flush). No call panics - neither then nor later, incl. the implicit finalisation on drop -, the failure is reported by some call, and a failure-free run yields exactly the reference archive.
+// @h prop=C11,C12 tier=thorough t=300 mem=4 name=c11_writer_fault_k071 uws="fn:^std::ptr::drop_glue::<:2;fn:Drop>::drop$:2;fn:drop_box_raw:2;fn:^std::mem::drop::<:2"
+c11_fault_at!(c11_writer_fault_k071, 71);
+/// C11 writer scenario (start_file a, write, start_file b, write, finish, drop): the sink's I/O call number 72 fails (whatever its kind: write, seek or flush). No call panics - neither then nor later, incl. the implicit finalisation on drop -, the failure is reported by some call, and a failure-free run yields exactly the reference archive.
+// @h prop=C11,C12 tier=thorough t=300 mem=4 name=c11_writer_fault_k072 uws="fn:^std::ptr::drop_glue::<:2;fn:Drop>::drop$:2;fn:drop_box_raw:2;fn:^std::mem::drop::<:2"
+c11_fault_at!(c11_writer_fault_k072, 72);
+/// C11 writer scenario (start_file a, write, start_file b, write, finish, drop): the sink's I/O call number 73 fails (whatever its kind: write, seek or flush). No call panics - neither then nor later, incl. the implicit finalisation on drop -, the failure is reported by some call, and a failure-free run yields exactly the reference archive.
+// @h prop=C11,C12 tier=thorough t=300 mem=4 name=c11_writer_fault_k073 uws="fn:^std::ptr::drop_glue::<:2;fn:Drop>::drop$:2;fn:drop_box_raw:2;fn:^std::mem::drop::<:2"
+c11_fault_at!(c11_writer_fault_k073, 73);
+/// C11 writer scenario (start_file a, write, start_file b, write, finish, drop): the sink's I/O call number 74 fails (whatever its kind: write, seek or flush). No call panics - neither then nor later, incl. the implicit finalisation on drop -, the failure is reported by some call, and a failure-free run yields exactly the reference archive.
+// @h prop=C11,C12 tier=thorough t=300 mem=4 name=c11_writer_fault_k074 uws="fn:^std::ptr::drop_glue::<:2;fn:Drop>::drop$:2;fn:drop_box_raw:2;fn:^std::mem::drop::<:2"
+c11_fault_at!(c11_writer_fault_k074, 74);
+/// C11 writer scenario (start_file a, write, start_file b, write, finish, drop): the sink's I/O call number 75 fails (whatever its kind: write, seek or flush). No call panics - neither then nor later, incl. the implicit finalisation on drop -, the failure is reported by some call, and a failure-free run yields exactly the reference archive.
+// @h prop=C11,C12 tier=thorough t=300 mem=4 name=c11_writer_fault_k075 uws="fn:^std::ptr::drop_glue::<:2;fn:Drop>::drop$:2;fn:drop_box_raw:2;fn:^std::mem::drop::<:2"
+c11_fault_at!(c11_writer_fault_k075, 75);
+/// C11 writer scenario (start_file a, write, start_file b, write, finish, drop): the sink's I/O call number 76 fails (whatever its kind: write, seek or flush). No call panics - neither then nor later, incl. the implicit finalisation on drop -, the failure is reported by some call, and a failure-free run yields exactly the reference archive.
+// @h prop=C11,C12 tier=thorough t=300 mem=4 name=c11_writer_fault_k076 uws="fn:^std::ptr::drop_glue::<:2;fn:Drop>::drop$:2;fn:drop_box_raw:2;fn:^std::mem::drop::<:2"
+c11_fault_at!(c11_writer_fault_k076, 76);
+/// C11 writer scenario (start_file a, write, start_file b, write, finish, drop): the sink's I/O call number 77 fails (whatever its kind: write, seek or flush). No call panics - neither then nor later, incl. the implicit finalisation on drop -, the failure is reported by some call, and a failure-free run yields exactly the reference archive.
+// @h prop=C11,C12 tier=thorough t=300 mem=4 name=c11_writer_fault_k077 uws="fn:^std::ptr::drop_glue::<:2;fn:Drop>::drop$:2;fn:drop_box_raw:2;fn:^std::mem::drop::<:2"
+c11_fault_at!(c11_writer_fault_k077, 77);
+/// C11 writer scenario (start_file a, write, start_file b, write, finish, drop): the sink's I/O call number 78 fails (whatever its kind: write, seek or flush). No call panics - neither then nor later, incl. the implicit finalisation on drop -, the failure is reported by some call, and a failure-free run yields exactly the reference archive.
+// @h prop=C11,C12 tier=thorough t=300 mem=4 name=c11_writer_fault_k078 uws="fn:^std::ptr::drop_glue::<:2;fn:Drop>::drop$:2;fn:drop_box_raw:2;fn:^std::mem::drop::<:2"
+c11_fault_at!(c11_writer_fault_k078, 78);
+/// C11 writer scenario (start_file a, write, start_file b, write, finish, drop): the sink's I/O call number 79 fails (whatever its kind: write, seek or flush). No call panics - neither then nor later, incl. the implicit finalisation on drop -, the failure is reported by some call, and a failure-free run yields exactly the reference archive.
+// @h prop=C11,C12 tier=thorough t=300 mem=4 name=c11_writer_fault_k079 uws="fn:^std::ptr::drop_glue::<:2;fn:Drop>::drop$:2;fn:drop_box_raw:2;fn:^std::mem::drop::<:2"
+c11_fault_at!(c11_writer_fault_k079, 79);
+/// C11 writer scenario (start_file a, write, start_file b, write, finish, drop): the sink's I/O call number 80 fails (whatever its kind: write, seek or flush). No call panics - neither then nor later, incl. the implicit finalisation on drop -, the failure is reported by some call, and a failure-free run yields exactly the reference archive.
+// @h prop=C11,C12 tier=thorough t=300 mem=4 name=c11_writer_fault_k080 uws="fn:^std::ptr::drop_glue::<:2;fn:Drop>::drop$:2;fn:drop_box_raw:2;fn:^std::mem::drop::<:2"
+c11_fault_at!(c11_writer_fault_k080, 80);
+/// C11 writer scenario (start_file a, write, start_file b, write, finish, drop): the sink's I/O call number 81 fails (whatever its kind: write, seek or flush). No call panics - neither then nor later, incl. the implicit finalisation on drop -, the failure is reported by some call, and a failure-free run yields exactly the reference archive.
+// @h prop=C11,C12 tier=thorough t=300 mem=4 name=c11_writer_fault_k081 uws="fn:^std::ptr::drop_glue::<:2;fn:Drop>::drop$:2;fn:drop_box_raw:2;fn:^std::mem::drop::<:2"
+c11_fault_at!(c11_writer_fault_k081, 81);
+/// C11 writer scenario (start_file a, write, start_file b, write, finish, drop): the sink's I/O call number 82 fails (whatever its kind: write, seek or flush). No call panics - neither then nor later, incl. the implicit finalisation on drop -, the failure is reported by some call, and a failure-free run yields exactly the reference archive.
+// @h prop=C11,C12 tier=thorough t=300 mem=4 name=c11_writer_fault_k082 uws="fn:^std::ptr::drop_glue::<:2;fn:Drop>::drop$:2;fn:drop_box_raw:2;fn:^std::mem::drop::<:2"
+c11_fault_at!(c11_writer_fault_k082, 82);
+/// C11 writer scenario (start_file a, write, start_file b, write, finish, drop): the sink's I/O call number 83 fails (whatever its kind: write, seek or flush). No call panics - neither then nor later, incl. the implicit finalisation on drop -, the failure is reported by some call, and a failure-free run yields exactly the reference archive.
+// @h prop=C11,C12 tier=thorough t=300 mem=4 name=c11_writer_fault_k083 uws="fn:^std::ptr::drop_glue::<:2;fn:Drop>::drop$:2;fn:drop_box_raw:2;fn:^std::mem::drop::<:2"
+c11_fault_at!(c11_writer_fault_k083, 83);
+/// C11 writer scenario (start_file a, write, start_file b, write, finish, drop): the sink's I/O call number 84 fails (whatever its kind: write, seek or flush). No call panics - neither then nor later, incl. the implicit finalisation on drop -, the failure is reported by some call, and a failure-free run yields exactly the reference archive.
+// @h prop=C11,C12 tier=thorough t=300 mem=4 name=c11_writer_fault_k084 uws="fn:^std::ptr::drop_glue::<:2;fn:Drop>::drop$:2;fn:drop_box_raw:2;fn:^std::mem::drop::<:2"
+c11_fault_at!(c11_writer_fault_k084, 84);
+/// C11 writer scenario (start_file a, write, start_file b, write, finish, drop): the sink's I/O call number 85 fails (whatever its kind: write, seek or flush). No call panics - neither then nor later, incl. the implicit finalisation on drop -, the failure is reported by some call, and a failure-free run yields exactly the reference archive.
+// @h prop=C11,C12 tier=thorough t=300 mem=4 name=c11_writer_fault_k085 uws="fn:^std::ptr::drop_glue::<:2;fn:Drop>::drop$:2;fn:drop_box_raw:2;fn:^std::mem::drop::<:2"
+c11_fault_at!(c11_writer_fault_k085, 85);
+/// C11 writer scenario (start_file a, write, start_file b, write, finish, drop): the sink's I/O call number 86 fails (whatever its kind: write, seek or flush). No call panics - neither then nor later, incl. the implicit finalisation on drop -, the failure is reported by some call, and a failure-free run yields exactly the reference archive.
+// @h prop=C11,C12 tier=thorough t=300 mem=4 name=c11_writer_fault_k086 uws="fn:^std::ptr::drop_glue::<:2;fn:Drop>::drop$:2;fn:drop_box_raw:2;fn:^std::mem::drop::<:2"
+c11_fault_at!(c11_writer_fault_k086, 86);
+/// C11 writer scenario (start_file a, write, start_file b, write, finish, drop): the sink's I/O call number 87 fails (whatever its kind: write, seek or flush). No call panics - neither then nor later, incl. the implicit finalisation on drop -, the failure is reported by some call, and a failure-free run yields exactly the reference archive.
+// @h prop=C11,C12 tier=thorough t=300 mem=4 name=c11_writer_fault_k087 uws="fn:^std::ptr::drop_glue::<:2;fn:Drop>::drop$:2;fn:drop_box_raw:2;fn:^std::mem::drop::<:2"
+c11_fault_at!(c11_writer_fault_k087, 87);
+/// C11 writer scenario (start_file a, write, start_file b, write, finish, drop): the sink's I/O call number 88 fails (whatever its kind: write, seek or flush). No call panics - neither then nor later, incl. the implicit finalisation on drop -, the failure is reported by some call, and a failure-free run yields exactly the reference archive.
+// @h prop=C11,C12 tier=quick t=300 mem=4 name=c11_writer_fault_k088 uws="fn:^std::ptr::drop_glue::<:2;fn:Drop>::drop$:2;fn:drop_box_raw:2;fn:^std::mem::drop::<:2"
+c11_fault_at!(c11_writer_fault_k088, 88);
+/// C11 writer scenario (start_file a, write, start_file b, write, finish, drop): the sink's I/O call number 89 fails (whatever its kind: write, seek or flush). No call panics - neither then nor later, incl. the implicit finalisation on drop -, the failure is reported by some call, and a failure-free run yields exactly the reference archive.
+// @h prop=C11,C12 tier=thorough t=300 mem=4 name=c11_writer_fault_k089 uws="fn:^std::ptr::drop_glue::<:2;fn:Drop>::drop$:2;fn:drop_box_raw:2;fn:^std::mem::drop::<:2"
+c11_fault_at!(c11_writer_fault_k089, 89);
+/// C11 writer scenario (start_file a, write, start_file b, write, finish, drop): the sink's I/O call number 90 fails (whatever its kind: write, seek or flush). No call panics - neither then nor later, incl. the implicit finalisation on drop -, the failure is reported by some call, and a failure-free run yields exactly the reference archive.
+// @h prop=C11,C12 tier=thorough t=300 mem=4 name=c11_writer_fault_k090 uws="fn:^std::ptr::drop_glue::<:2;fn:Drop>::drop$:2;fn:drop_box_raw:2;fn:^std::mem::drop::<:2"
+c11_fault_at!(c11_writer_fault_k090, 90);
+/// C11 writer scenario (start_file a, write, start_file b, write, finish, drop): the sink's I/O call number 91 fails (whatever its kind: write, seek or flush). No call panics - neither then nor later, incl. the implicit finalisation on drop -, the failure is reported by some call, and a failure-free run yields exactly the reference archive.
+// @h prop=C11,C12 tier=thorough t=300 mem=4 name=c11_writer_fault_k091 uws="fn:^std::ptr::drop_glue::<:2;fn:Drop>::drop$:2;fn:drop_box_raw:2;fn:^std::mem::drop::<:2"
+c11_fault_at!(c11_writer_fault_k091, 91);
+/// C11 writer scenario (start_file a, write, start_file b, write, finish, drop): no I/O call fails (index beyond the scenario): the failure-free reference run. No call panics - neither then nor later, incl. the implicit finalisation on drop -, the failure is reported by some call, and a failure-free run yields exactly the reference archive.
+// @h prop=C11,C12 tier=quick t=300 mem=4 name=c11_writer_fault_k200 uws="fn:^std::ptr::drop_glue::<:2;fn:Drop>::drop$:2;fn:drop_box_raw:2;fn:^std::mem::drop::<:2"
+c11_fault_at!(c11_writer_fault_k200, 200);
 
 // =============================================================================================
 // C13 append, compositional: (a) what new_append re-hydrates from an existing archive,
@@ -1310,8 +1614,7 @@ macro_rules! c13_open_state {
             }
             kani::cover!(dd);
             kani::cover!(v.made_by >> 8 == 3 && v.method == 8);
-            core::mem::forget(w);
-        }
+                }
     };
 }
 /// C13(a) new_append on a one-entry archive from the independent builder (all entry metadata
@@ -1465,7 +1768,6 @@ api_harness!(c13_append_one_from_state, 10, {
     assert_eq!(sink.end, eo + 24);
     kani::cover!(elen0 == 4 + 28);
     kani::cover!(elen0 == 4);
-    core::mem::forget(w);
 });
 
 /// C13(b) appending nothing: from the same state, finish() alone rewrites the central directory
@@ -1504,7 +1806,6 @@ api_harness!(c13_append_nothing_from_state, 10, {
     }
     kani::cover!(elen0 == 4);
     kani::cover!(elen0 > 4);
-    core::mem::forget(w);
 });
 
 /// C13(a) new_append on an EMPTY archive (end record + 1-byte comment from the independent
@@ -1532,7 +1833,6 @@ api_harness!(c13_open_state_empty, 10, {
     assert_eq!(w.comment[0], cm[0]);
     assert_eq!(sink.off, 0);
     kani::cover!(true);
-    core::mem::forget(w);
 });
 
 /// C13(b) from the state c13_open_state_empty establishes (idle, raw flag set, no entries, old
@@ -1572,5 +1872,4 @@ api_harness!(c13_append_to_empty_from_state, 10, {
     }
     kani::cover!(add);
     kani::cover!(!add);
-    core::mem::forget(w);
 });
